@@ -20,6 +20,9 @@ var shardR, shardM = 0, 1
 // number of configurations solved concurrently inside one process
 var l2Parallel = 8
 
+// bound on the number of paths explored per harness (all threads, all fixpoint iterations)
+var l2MaxPaths = 60000
+
 type initLoc struct {
 	Shape  *Shape
 	Leaves []*Term
@@ -366,8 +369,8 @@ func runL2Harness(prog *ssa.Program, pkg *ssa.Package, name, mode, solverName st
 					restart = true
 					break
 				}
-				if run.paths > 200000 {
-					panic(engineErr("L2 path bound exceeded"))
+				if run.paths > l2MaxPaths {
+					panic(engineErr("L2 exploration exceeded the path bound (%d paths): the shared state of this code forks too often for thread-modular exploration", l2MaxPaths))
 				}
 			}
 			if restart {
